@@ -1587,6 +1587,14 @@ class C18(Property):
         # phase 5, goal 2: int(n*0.05) vs n/20 — small n, every residue, n = 20k+19 over all magnitudes, both sides of 3*2^51, up to 2^53-1
         B05 = 3 * 2**51
         cs.append({"kind": "law05", "ns": list(range(0, 130))})
+        # phase 6: `sorted()` returns a sorted permutation, independent of the arrival order (py_sorted_perm / _sorted / _order_independent)
+        for sl_vals in ([0, 1], [0, 1, 2], [3, 1, 2, 0], [0, 1, 2, 3, 4], ["a", "b", "ab", "", "B"], [1.5, -2, 0, 7, 2.25], ["10", "9", "1", "a1", "A"],
+                     [2, "a", 1], [None, 1], [None, None], [1, 2, None, 3], ["a", "b", 3], [0.5, "0.5", 1]):
+            cs.append({"kind": "sortlaw", "vals": sl_vals})
+        for n in (6, 7, 8, 11, 16, 17, 24, 33, 48, 63):
+            cs.append({"kind": "sortlaw", "vals": [(37 * i + 11) % 101 - 50 for i in range(n)]})                 # scattered distinct ints
+            cs.append({"kind": "sortlaw", "vals": [chr(97 + (7 * i) % 26) * (1 + i % 3) + str((5 * i) % n) for i in range(n)]})   # distinct strings
+            cs.append({"kind": "sortlaw", "vals": list(range(n // 2, 0, -1)) + [n + (13 * i) % n / 4 + i * n for i in range(n - n // 2)]})   # descending run, then floats
         cs.append({"kind": "law05", "ns": sorted(set(v for e in range(5, 53) for v in (2**e - 1, 2**e, 20 * (2**e // 20) + 19, 20 * (3 * 2**e // 40) + 19, 20 * (5 * 2**e // 80) + 19) if 0 <= v < 2**53))})
         cs.append({"kind": "law05", "ns": list(range(B05 - 45, B05 + 45))})
         cs.append({"kind": "law05", "ns": [B05 - 20 * j - 5 for j in range(1, 60)] + [B05 + 20 * j + 15 for j in range(0, 60)] + [5 * 2**50 + d for d in range(-25, 25)] + [2**53 - 1 - d for d in range(0, 45)]})
@@ -1604,6 +1612,28 @@ class C18(Property):
                  "plot": {"mode": "diff", "err": None, "errevery": None, "boundary": True}},
                 {"op": "raw_contrast", "l": "family", "l1": "f", "l2": "g", "x": "data", "p": "environment_id", "span": None, "fresh": True,
                  "plot": {"mode": "prob", "err": "range", "errevery": 2, "boundary": False}}]))
+        # phase 6 (round i: key handling): parameter values that are equal across types (1 == 1.0 == True, 0 == False) or whose str()/repr()
+        # coincide ('1' vs 1, "(1, 2)" vs (1, 2), 'None' vs None) as pairing key, as label, as x and as `where` argument — histories
+        # where / analysis / fresh analysis on the same object; judged by the existing (B) monitors (direct computation with Python equality)
+        for ks_ in ([1, "1", {"f": "1.0"}, True, "True", 2], [0, False, "0", "", None, "None"], ["a", "a ", "A", "('a',)", {"t": ["a"]}, "['a']"],
+                    [{"t": [1, 2]}, "(1, 2)", {"t": [1, {"f": "2.0"}]}, "1", 1, "1.0"], [10, "10", {"f": "10.0"}, "10.0", {"f": "10.5"}, "1e1"],
+                    [True, "True", 1, False, "False", 0]):
+            kh = dict(base, vals=[[0]], envs=[[i, v] for i, v in enumerate(ks_)],
+                      evals=[[e, l, 0, [(3 * e + 2 * l + i) % 5 for i in range(1, 3 + (e + l) % 3)]] for e in range(len(ks_)) for l in (0, 1) if (e, l) != (4, 1)])
+            hist = [{"op": "where_fin", "n": None, "l": "learner_id", "p": "data", "fresh": True},
+                    {"op": "where_fin", "n": "min", "l": "data", "p": "learner_id", "fresh": True},
+                    {"op": "raw_learners", "x": "data", "l": "learner_id", "p": "environment_id", "span": None, "fresh": True},
+                    {"op": "raw_learners", "x": "index", "l": "data", "p": None, "span": 2, "fresh": True},
+                    {"op": "raw_learners", "x": "data", "l": "family", "p": None, "span": 2, "fresh": True}]
+            scal_ = [v for v in ks_ if not (isinstance(v, dict) and "t" in v)]     # a tuple argument of `where` means "one of", like a list
+            for v_ in scal_[:4]:
+                hist += [{"op": "where", "kw": [["data", v_]], "tbl": "env", "fresh": True},
+                         {"op": "raw_learners", "x": "environment_id", "l": "learner_id", "p": "environment_id", "span": None},
+                         {"op": "where_fin", "n": 2, "l": "learner_id", "p": "environment_id"}]
+            hist += [{"op": "where", "kw": [["data", scal_[:2]]], "tbl": "env", "fresh": True},
+                     {"op": "where_fin", "n": None, "l": "learner_id", "p": "data"},
+                     {"op": "raw_learners", "x": "data", "l": "learner_id", "p": "environment_id", "span": None, "fresh": True}]
+            cs.append(dict(kh, steps=hist))
         return cs
 
     def exhaustive(self, tier):
@@ -1646,7 +1676,62 @@ class C18(Property):
                                "{n >= 3*2^51, n %% 20 == 19} says they %s" % (n, a, n, m, "differ by 1" if exp_diff else "agree"), "A:int-n-0.05-vs-div20"))
         return {"fails": fails, "nontrivial": len(ns) > 1, "tags": tags, "impl": impl, "model": model}
 
+    # ---- phase 6: `sorted()` (CPython) vs. the model's `pySorted`, in every arrival order of the same values
+    @staticmethod
+    def sortlaw_arrangements(vals):
+        n = len(vals)
+        if n <= 5:
+            import itertools
+            return [list(p_) for p_ in itertools.permutations(vals)]
+        out = [list(vals), vals[::-1], vals[1:] + vals[:1], vals[-1:] + vals[:-1], vals[::2] + vals[1::2][::-1], vals[n // 2:] + vals[:n // 2][::-1],
+               vals[1::2] + vals[::2], vals[::3] + vals[1::3] + vals[2::3]]
+        try:
+            asc = sorted(vals)
+            out += [asc, asc[::-1], asc[:n // 2] + asc[n // 2:][::-1], asc[n // 3:] + asc[:n // 3]]
+        except TypeError:
+            pass
+        for mul in (7, 11, 13, 17, 19, 23):                      # fixed multiplicative shuffles (all positions for n coprime, else a rotation mix)
+            idx = sorted(range(n), key=lambda i: ((i + 1) * mul * 2654435761) % 4294967296)
+            out.append([vals[i] for i in idx])
+        return out
+
+    def eval_sortlaw(self, case, driver):
+        """Props.C18.py_sorted_perm / py_sorted_sorted / py_sorted_order_independent against CPython's sorted()."""
+        fails, tags = [], []
+        vals = case["vals"]
+        arrs = self.sortlaw_arrangements(vals)
+        one_class = all(isinstance(v, (bool, int, float)) for v in vals) or all(isinstance(v, str) for v in vals)
+        first_impl, first_model, impl_all = None, None, []
+        for arr in arrs:
+            try:
+                impl = {"ok": [pyval(v) for v in sorted(arr)]}
+            except TypeError:
+                impl = {"err": "TypeError"}
+            impl_all.append(impl)
+            if first_impl is None:
+                first_impl = impl
+            elif impl != first_impl:
+                fails.append(F("A", "sorted(%r) = %r but sorted of the first arrangement = %r" % (arr, impl, first_impl), "A:sortlaw-python-order-dependent"))
+            if driver is not None:
+                m = ask(driver, {"kind": "pysort", "vals": [pyval(v) for v in arr]})["model"]
+                if m != impl:
+                    fails.append(F("A", "sorted(%r): Python %r, the model of sorted() %r" % (arr, impl, m), "A:sortlaw-python-vs-model"))
+                if first_model is None:
+                    first_model = m
+                elif one_class and m != first_model:
+                    fails.append(F("C", "model of sorted() depends on the arrival order: %r gives %r, the first arrangement %r" % (arr, m, first_model), "C:sortlaw-order-dependent"))
+                if "ok" in m and sorted(map(canonj, m["ok"])) != sorted(canonj(pyval(v)) for v in arr):
+                    fails.append(F("C", "model of sorted() over %r is not a permutation: %r" % (arr, m), "C:sortlaw-perm"))
+                if ("ok" in m) != ("ok" in first_model):
+                    fails.append(F("C", "model of sorted() raises for one arrangement of %r and not for another" % (vals,), "C:sortlaw-raises-order-dependent"))
+        n = len(vals)
+        tags.append("sortlaw:%s:%s" % ("ok" if "ok" in first_impl else "TypeError", "n<=5:all-perms" if n <= 5 else "n=6-16" if n <= 16 else "n=17-63"))
+        tags.append("sortlaw:arrangements=%d" % (len(arrs) if len(arrs) < 30 else 10 * (len(arrs) // 10)))
+        return {"fails": fails, "nontrivial": n >= 2, "tags": tags, "impl": first_impl, "model": first_model}
+
     def evaluate(self, case, driver):
+        if case["kind"] == "sortlaw":
+            return self.eval_sortlaw(case, driver)
         if case["kind"] == "ma":
             return self.eval_ma(case, driver)
         if case["kind"] == "inc":
@@ -2365,6 +2450,31 @@ class C18(Property):
                     if rec.get("err") == "TypeError":
                         fails.append(F("A", "raw_contrast(x=%r) raised TypeError; the model of sorted() orders the x labels %r without raising" % (x, labels), "A:raw_contrast-sorted"))
                         return m
+                    if len(enc) >= 2 and all(e[0] in ("num", "str") for e in enc):
+                        # phase 6 (`py_sorted_perm`, `py_sorted_sorted`, `py_sorted_order_independent`): the model's output is a
+                        # sorted permutation of the labels, and every other arrival order of the same labels gives the same list —
+                        # in the model (run-time guard of the theorems) and in Python's own `sorted` (tie of `pySorted` to CPython)
+                        try:
+                            py_sorted = sorted(labels)
+                        except TypeError:
+                            py_sorted = None
+                        if py_sorted is not None:
+                            if [pyval(v) for v in py_sorted] != ps["ok"]:
+                                fails.append(F("A", "sorted(%r) gives %r, the model of sorted() gives %r" % (labels, py_sorted, ps["ok"]), "A:pysort-direct"))
+                            if sorted(map(canonj, ps["ok"])) != sorted(map(canonj, enc)):
+                                fails.append(F("C", "model of sorted() over %r does not return a permutation: %r" % (labels, ps["ok"]), "C:pysort-perm"))
+                            if any(py_sorted[i + 1] < py_sorted[i] for i in range(len(py_sorted) - 1)):
+                                fails.append(F("C", "the order %r that the model of sorted() agrees with is not ascending" % (py_sorted,), "C:pysort-sorted"))
+                            n_ = len(labels)
+                            arrangements = [("reversed", labels[::-1]), ("rotated", labels[1:] + labels[:1]),
+                                            ("interleaved", labels[::2] + labels[1::2][::-1]), ("mid-first", labels[n_ // 2:] + labels[:n_ // 2][::-1])]
+                            for nm, arr in arrangements:
+                                pp = ask(driver, {"kind": "pysort", "vals": [pyval(v) for v in arr]})["model"]
+                                if pp != ps:
+                                    fails.append(F("C", "model of sorted(): the %s arrangement %r of the labels %r gives %r instead of %r" % (nm, arr, labels, pp, ps), "C:pysort-order-dependent"))
+                                if [pyval(v) for v in sorted(arr)] != ps["ok"]:
+                                    fails.append(F("A", "sorted(%r) (the %s arrangement) gives %r, the model of sorted() gives %r" % (arr, nm, sorted(arr), ps["ok"]), "A:pysort-arrangement"))
+                            tags.append("pysort:perm-invariant:%s" % ("n=2" if n_ == 2 else "n=3-4" if n_ <= 4 else "n>=5"))
                     if "table" in rec and not any(e[0] == "fset" for e in enc):
                         got_x = [pyval(v) for v in rec["table"][1][0]]
                         if got_x != ps["ok"]:
@@ -2549,6 +2659,12 @@ class C18(Property):
 
     # ---------------------------------------------------------------- shrinking / replay
     def shrink(self, case):
+        if case["kind"] == "sortlaw":
+            vals = case["vals"]
+            for k in range(len(vals)):
+                if len(vals) > 2:
+                    yield {"kind": "sortlaw", "vals": vals[:k] + vals[k + 1:]}
+            return
         if case["kind"] == "law05":
             for n in case["ns"]:
                 yield {"kind": "law05", "ns": [n]}
@@ -2620,6 +2736,9 @@ class C18(Property):
                     yield dict(case, steps=steps[:k] + [dict(st, **{key: st[key][0]})] + steps[k + 1:])
 
     def snippet(self, case):
+        if case["kind"] == "sortlaw":
+            return ("import itertools\nvals = %r\nfor arr in itertools.islice(itertools.permutations(vals), 200):\n    try: print(list(arr), sorted(arr))\n"
+                    "    except TypeError as e: print(list(arr), 'TypeError')\n" % (case["vals"],))
         if case["kind"] == "law05":
             return "for n in %r:\n    print(n, max(int(n*0.05),1), max(n//20,1))\n" % (case["ns"][:20],)
         if case["kind"] == "ma":
